@@ -38,22 +38,17 @@ Proof. reflexivity. Qed.
 Lemma pop_defer_scope_nil : forall b c t, pop_defer_scope (mk [] b c t) = mk [] b c t.
 Proof. reflexivity. Qed.
 
-Lemma pop_destructor_scope_cons : forall a l r c t,
-  pop_destructor_scope (mk a (l :: r) c t) = pop_defer_scope (mk a r c (t ++ map EDtor (rev l))).
-Proof. intros; unfold pop_destructor_scope; simpl. now rewrite run_destructors_eq. Qed.
-
-Lemma pop_destructor_scope_nil : forall a c t,
-  pop_destructor_scope (mk a [] c t) = pop_defer_scope (mk a [] c t).
-Proof. reflexivity. Qed.
-
 Lemma pop_destructor_scope_cc : forall D Ds T Ts c t,
   pop_destructor_scope (mk (D :: Ds) (T :: Ts) c t) =
-  mk Ds Ts c (t ++ map EDtor (rev T) ++ map EDefer (rev D)).
-Proof. intros. rewrite pop_destructor_scope_cons, pop_defer_scope_cons. now rewrite app_assoc. Qed.
+  mk Ds Ts c (t ++ map EDefer (rev D) ++ map EDtor (rev T)).
+Proof.
+  intros. unfold pop_destructor_scope. rewrite pop_defer_scope_cons; simpl.
+  rewrite run_destructors_eq; simpl. now rewrite app_assoc.
+Qed.
 
 Lemma pop_scope_cc : forall D Ds T Ts c t,
   pop_scope (mk (D :: Ds) (T :: Ts) c t) =
-  mk Ds Ts (pred c) (t ++ map EDtor (rev T) ++ map EDefer (rev D)).
+  mk Ds Ts (pred c) (t ++ map EDefer (rev D) ++ map EDtor (rev T)).
 Proof. intros. unfold pop_scope. now rewrite pop_destructor_scope_cc. Qed.
 
 Lemma pop_scope_unfold : forall st,
@@ -76,9 +71,15 @@ Lemma defer_stmt_cc : forall k D Ds b c t,
   defer_stmt k (mk (D :: Ds) b c t) = mk ((D ++ [k]) :: Ds) b c (t ++ [EReg k]).
 Proof. reflexivity. Qed.
 
-Lemma pre_return_cleanup_empty : forall Ds Ts c t,
-  pre_return_cleanup (mk ([] :: Ds) ([] :: Ts) c t) = mk ([] :: Ds) ([] :: Ts) c t.
-Proof. reflexivity. Qed.
+(* execute_pre_return_cleanup: both innermost lists run (defers, then destructors) and left EMPTY in place *)
+Lemma pre_return_cleanup_cc : forall D Ds T Ts c t,
+  pre_return_cleanup (mk (D :: Ds) (T :: Ts) c t) =
+  mk ([] :: Ds) ([] :: Ts) c (t ++ map EDefer (rev D) ++ map EDtor (rev T)).
+Proof.
+  intros. unfold pre_return_cleanup.
+  destruct D as [|d D], T as [|x T]; simpl; rewrite ?run_destructors_eq; unfold emit; simpl;
+    rewrite ?app_nil_r, <- ?app_assoc; reflexivity.
+Qed.
 
 Lemma guard_report_same : forall g a b c t t',
   guard_report g (mk a b c t) (mk a b c t') = mk a b c t'.
